@@ -9,47 +9,73 @@
   Source-derived facts: CelloGen/Str.lean (allocation sizes and the `memmove` count, regenerated from
   src/String.c on every run).  All theorems hold for every junk function `J` (the indeterminate bytes `realloc`
   adds) and every lawful parameter set; `C16_current_source` instantiates them with the current source.
+
+  Operands.  Histories are lists of `AOp`: the operand of assign / concat / append / rem / a `%s` argument is a `Src` —
+  a C string by value, the target itself, or a view into the target's allocation — and every step takes the allocator's
+  choice `mv` (does `realloc` move the block).  The history theorems carry the explicit, decidable hypothesis `AOp.NoAlias`
+  ("the operand's bytes do not lie in the target's allocation"); the region it excludes is known finding KF-C16-alias-operand:
+  the full statement `C16_alias_statement stepA` is refuted (`C16_alias_refuted`, `C16_alias_operand_refuted`,
+  `C16_alias_always_undefined`), what does hold there is `C16_alias_partial`, and the proposed repair satisfies the full
+  statement (`C16_alias_repaired`).
+  `hash`: `String_Hash` is `hash_data(s->val, strlen(s->val))`; `hash_data` is engine `hash`'s (C10) model `Cello.Hash.hashData`,
+  proved there to be MurmurHash64A — `C16_hash_is_murmur` composes the two.
 -/
 import Cello.Str
+import Cello.Hash
 import CelloGen.Str
 import CelloProofs.Lemmas.StrRun
 import CelloProofs.Lemmas.StrBytes
 import CelloProofs.Lemmas.StrPrint
+import CelloProofs.Lemmas.StrAlias
+import CelloProofs.Lemmas.HashMurmur
 
 namespace Cello.Str
 
 /-- **One step.** From any well-formed object (a terminator somewhere in the allocation), any operation of the
-    property with NUL-free operands: the object stays well-formed, its text is the list function applied to the old
-    text, every access stayed inside the allocation, and it raises (ValueError) exactly when the spec says `rem` has
-    nothing to remove — in which case the object is unchanged, the whole allocation included. -/
-theorem C16_step_refines {P : Params} (hP : P.Lawful) (J : Nat → Byte) (s : Str) (op : Op)
-    (hs : s.WF) (hop : op.NulFree) :
-    let r := step P J s op
-    r.st.WF ∧ r.st.abs = Spec.step s.abs op ∧ r.safe = true ∧
-      (r.out = .raised .ValueError ↔ Spec.raises s.abs op = true) ∧
-      (Spec.raises s.abs op = true → r.st = s) := by
-  have h := step_ok hP J s op hs hop
-  exact ⟨h.wf, h.abs, h.safe, h.raises, h.unchanged⟩
+    property whose operand does not point into the target's allocation (`op.NoAlias`, decidable) and is NUL-free, whatever
+    the allocator does (`mv`): the object stays well-formed, its text is the list function applied to the old
+    text, every access stayed inside the allocation and nothing undefined happened, and it raises (ValueError) exactly when
+    the spec says `rem` has nothing to remove — in which case the object is unchanged, the whole allocation included. -/
+theorem C16_step_refines {P : Params} (hP : P.Lawful) (J : Nat → Byte) (mv : Bool) (s : Str) (op : AOp)
+    (hs : s.WF) (hna : op.NoAlias) (hop : op.NulFree s) :
+    let r := stepA P J mv s op
+    r.st.WF ∧ r.st.abs = Spec.step s.abs op.plain ∧ r.defined = true ∧
+      (r.out = .raised .ValueError ↔ Spec.raises s.abs op.plain = true) ∧
+      (Spec.raises s.abs op.plain = true → r.st = s) := by
+  intro r
+  have e : r = step P J s op.plain := stepA_noAlias P J mv s hna
+  have h := step_ok hP J s op.plain hs (nulFree_plain hna s hop)
+  rw [e]
+  exact ⟨h.wf, h.abs, by simp [Res.defined, h.safe, step_not_ub], h.raises, h.unchanged⟩
 
-/-- **C16 (refinement).** For every way of creating a heap String (`new(String)` or `new(String, $S(init))`) and every
-    history of assign / concat / append / resize / clear / rem / formatted writes with NUL-free operands, the
+/-- **C16 (refinement).** For every way of creating a heap String (`new(String)` or `new(String, $S(init))`), every
+    history of assign / concat / append / resize / clear / rem / formatted writes whose operands are NUL-free and do not
+    point into the target's own allocation (`AOp.NoAlias`: the explicit hypothesis; the region it excludes is
+    `C16_alias_refuted`), and every behaviour of the allocator (`mv i`: does the `i`-th `realloc` move the block), the
     object holds exactly the abstract string computed by the list functions, and every observer agrees with the list
     function on that abstract string: `len` = length, `c_str` = the bytes, `cmp` = three-way lexicographic comparison
-    of unsigned bytes, `eq` = equality, `mem` = "is a contiguous sublist", `hash` = the hash function of the bytes
-    (whatever it is), `rem` = removal of the first occurrence / ValueError when there is none. -/
-theorem C16_refines_bytes {P : Params} (hP : P.Lawful) (J : Nat → Byte) (init : Option (List Byte))
-    (hinit : ∀ x, init = some x → NulFree x) (ops : List Op) (hops : ∀ op ∈ ops, op.NulFree) :
-    let s := (run P J (new P J init).st ops).1
-    let a := Spec.run (init.getD []) ops
+    of unsigned bytes, `eq` = equality, `mem` = "is a contiguous sublist", `hash` = the hash function applied to exactly
+    the bytes of the abstract string — for the `hash_data` of src/Hash.c see `C16_hash_is_murmur` —, `rem` = removal of the
+    first occurrence / ValueError when there is none. -/
+theorem C16_refines_bytes {P : Params} (hP : P.Lawful) (J : Nat → Byte) (mv : Nat → Bool) (init : Option (List Byte))
+    (hinit : ∀ x, init = some x → NulFree x) (ops : List AOp) (hna : ∀ op ∈ ops, op.NoAlias)
+    (hops : ∀ op ∈ ops, op.plain.NulFree) :
+    let s := (runA P J mv 0 (new P J init).st ops).1
+    let a := Spec.run (init.getD []) (ops.map AOp.plain)
     s.abs = a ∧ len s = a.length ∧ cstr s = a ∧
     (∀ x, NulFree x → cmp s x = lexCmp a x ∧ (eq s x = true ↔ a = x) ∧ (mem s x = true ↔ x <:+: a)) ∧
     (∀ {α : Type} (H : List Byte → α), hash H s = H a) ∧
     (∀ x, NulFree x → (rem P s x).st.abs = (removeFirst x a).getD a ∧
         ((rem P s x).out = .raised .ValueError ↔ ¬ x <:+: a)) := by
   intro s a
+  have hops' : ∀ op ∈ ops.map AOp.plain, op.NulFree := by
+    intro op hop; obtain ⟨o, ho, rfl⟩ := List.mem_map.mp hop; exact hops o ho
   obtain ⟨hwf0, habs0, _⟩ := new_ok hP J init hinit
-  obtain ⟨hwf, habs, _, _⟩ := run_ok hP J ops (new P J init).st hwf0 hops
-  have ha : s.abs = a := by show (run P J _ ops).1.abs = _; rw [habs, habs0]
+  obtain ⟨hwf', habs, _, _⟩ := run_ok hP J (ops.map AOp.plain) (new P J init).st hwf0 hops'
+  have es : s = (run P J (new P J init).st (ops.map AOp.plain)).1 := by
+    show (runA P J mv 0 _ ops).1 = _; rw [runA_eq_run P J mv ops 0 _ hna]
+  have hwf : s.WF := by rw [es]; exact hwf'
+  have ha : s.abs = a := by rw [es, habs, habs0]
   refine ⟨ha, by rw [len_eq, ha], by rw [cstr_eq, ha], ?_, ?_, ?_⟩
   · intro x hx
     exact ⟨by rw [cmp_eq hwf hx, ha], by rw [eq_iff hwf hx, ha], by rw [mem_iff, ha]⟩
@@ -64,22 +90,28 @@ theorem C16_refines_bytes {P : Params} (hP : P.Lawful) (J : Nat → Byte) (init 
 /-- **C16 (termination and bounds).** In every such history, after EVERY operation the buffer has a NUL at index `len`
     and `len < cap` (the String is terminated inside its own allocation), and every read or write the operation made
     on the buffer lay inside the allocation current at that moment (`off + len ≤ cap` for every log entry — every
-    index touched is `< cap`).  The observers' reads are in bounds too. -/
-theorem C16_terminated {P : Params} (hP : P.Lawful) (J : Nat → Byte) (init : Option (List Byte))
-    (hinit : ∀ x, init = some x → NulFree x) (ops : List Op) (hops : ∀ op ∈ ops, op.NulFree) :
+    index touched is `< cap`), and no step is undefined.  The observers' reads are in bounds too.  Same explicit hypothesis
+    on the operands as `C16_refines_bytes`. -/
+theorem C16_terminated {P : Params} (hP : P.Lawful) (J : Nat → Byte) (mv : Nat → Bool) (init : Option (List Byte))
+    (hinit : ∀ x, init = some x → NulFree x) (ops : List AOp) (hna : ∀ op ∈ ops, op.NoAlias)
+    (hops : ∀ op ∈ ops, op.plain.NulFree) :
     let r0 := new P J init
     (r0.st.buf[len r0.st]? = some 0 ∧ len r0.st < r0.st.cap ∧ r0.log.all Acc.inBounds = true) ∧
-    ((run P J r0.st ops).2.length = ops.length) ∧
-    ∀ r ∈ (run P J r0.st ops).2,
-      r.st.buf[len r.st]? = some 0 ∧ len r.st < r.st.cap ∧ r.log.all Acc.inBounds = true ∧
+    ((runA P J mv 0 r0.st ops).2.length = ops.length) ∧
+    ∀ r ∈ (runA P J mv 0 r0.st ops).2,
+      r.st.buf[len r.st]? = some 0 ∧ len r.st < r.st.cap ∧ r.log.all Acc.inBounds = true ∧ r.out.isUB = false ∧
       (observeLog r.st).all Acc.inBounds = true := by
   intro r0
+  have hops' : ∀ op ∈ ops.map AOp.plain, op.NulFree := by
+    intro op hop; obtain ⟨o, ho, rfl⟩ := List.mem_map.mp hop; exact hops o ho
   obtain ⟨hwf0, _, hsafe0⟩ := new_ok hP J init hinit
-  obtain ⟨_, _, hlen, hall⟩ := run_ok hP J ops (new P J init).st hwf0 hops
-  refine ⟨⟨(terminated_of_wf hwf0).1, (terminated_of_wf hwf0).2, hsafe0⟩, hlen, ?_⟩
+  obtain ⟨_, _, hlen, hall⟩ := run_ok hP J (ops.map AOp.plain) (new P J init).st hwf0 hops'
+  have e : runA P J mv 0 r0.st ops = run P J r0.st (ops.map AOp.plain) := runA_eq_run P J mv ops 0 _ hna
+  rw [e]
+  refine ⟨⟨(terminated_of_wf hwf0).1, (terminated_of_wf hwf0).2, hsafe0⟩, by rw [hlen, List.length_map], ?_⟩
   intro r hr
   obtain ⟨hs, hw⟩ := hall r hr
-  exact ⟨(terminated_of_wf hw).1, (terminated_of_wf hw).2, hs, observe_safe hw⟩
+  exact ⟨(terminated_of_wf hw).1, (terminated_of_wf hw).2, hs, run_not_ub P J _ _ r hr, observe_safe hw⟩
 
 /-- Allocations are tight: after assign / concat / append / clear / a shrinking resize / a formatted write at
     `pos ≤ len` the terminator is the LAST byte of the allocation (`cap = len + 1`), so "inside its own allocation"
@@ -186,11 +218,15 @@ theorem C16_size_without_terminator_refuted :
     (formatTo { Params.modelled with formatSize := fun p n => p + n } (fun _ => 0) ⟨[97, 0]⟩ 1 [98]).safe = false ∧
     (rem { Params.modelled with remCount := fun _ lp lo => lp - lo + 2 } ⟨[97, 98, 0]⟩ [97]).safe = false := by decide
 
-/-- The text never depends on the indeterminate bytes `realloc` hands out, nor on which lawful parameters are used. -/
-theorem C16_junk_independent {P P' : Params} (hP : P.Lawful) (hP' : P'.Lawful) (J J' : Nat → Byte)
-    (s : Str) (hs : s.WF) (ops : List Op) (hops : ∀ op ∈ ops, op.NulFree) :
-    (run P J s ops).1.abs = (run P' J' s ops).1.abs := by
-  rw [(run_ok hP J ops s hs hops).2.1, (run_ok hP' J' ops s hs hops).2.1]
+/-- The text never depends on the indeterminate bytes `realloc` hands out, on whether it moves the block, nor on which lawful
+    parameters are used (operands outside the target's allocation). -/
+theorem C16_junk_independent {P P' : Params} (hP : P.Lawful) (hP' : P'.Lawful) (J J' : Nat → Byte) (mv mv' : Nat → Bool)
+    (s : Str) (hs : s.WF) (ops : List AOp) (hna : ∀ op ∈ ops, op.NoAlias) (hops : ∀ op ∈ ops, op.plain.NulFree) :
+    (runA P J mv 0 s ops).1.abs = (runA P' J' mv' 0 s ops).1.abs := by
+  have hops' : ∀ op ∈ ops.map AOp.plain, op.NulFree := by
+    intro op hop; obtain ⟨o, ho, rfl⟩ := List.mem_map.mp hop; exact hops o ho
+  rw [runA_eq_run P J mv ops 0 s hna, runA_eq_run P' J' mv' ops 0 s hna,
+    (run_ok hP J _ s hs hops').2.1, (run_ok hP' J' _ s hs hops').2.1]
 
 /-- `cmp`'s three results are the lexicographic order of Lean's `List` on unsigned bytes. -/
 theorem C16_cmp_is_lexicographic : ∀ (a b : List Byte),
@@ -249,15 +285,17 @@ theorem C16_current_source : CelloGen.Str.params.Lawful :=
 theorem C16_source_shape_as_modelled : CelloGen.Str.shape = CelloGen.Str.shapeModelled := by
   rfl
 
-/-- C16 for the code as it is in /repo now (sizes and count read from the source by the translator). -/
-theorem C16_holds_for_current_source (J : Nat → Byte) (init : Option (List Byte))
-    (hinit : ∀ x, init = some x → NulFree x) (ops : List Op) (hops : ∀ op ∈ ops, op.NulFree) :
+/-- C16 for the code as it is in /repo now (sizes and count read from the source by the translator), operands outside the
+    target's allocation. -/
+theorem C16_holds_for_current_source (J : Nat → Byte) (mv : Nat → Bool) (init : Option (List Byte))
+    (hinit : ∀ x, init = some x → NulFree x) (ops : List AOp) (hna : ∀ op ∈ ops, op.NoAlias)
+    (hops : ∀ op ∈ ops, op.plain.NulFree) :
     let P := CelloGen.Str.params
-    (run P J (new P J init).st ops).1.abs = Spec.run (init.getD []) ops ∧
-    ∀ r ∈ (run P J (new P J init).st ops).2,
-      r.st.buf[len r.st]? = some 0 ∧ len r.st < r.st.cap ∧ r.log.all Acc.inBounds = true :=
-  ⟨(C16_refines_bytes C16_current_source J init hinit ops hops).1,
-   fun r hr => let h := (C16_terminated C16_current_source J init hinit ops hops).2.2 r hr; ⟨h.1, h.2.1, h.2.2.1⟩⟩
+    (runA P J mv 0 (new P J init).st ops).1.abs = Spec.run (init.getD []) (ops.map AOp.plain) ∧
+    ∀ r ∈ (runA P J mv 0 (new P J init).st ops).2,
+      r.st.buf[len r.st]? = some 0 ∧ len r.st < r.st.cap ∧ r.log.all Acc.inBounds = true ∧ r.out.isUB = false :=
+  ⟨(C16_refines_bytes C16_current_source J mv init hinit ops hna hops).1,
+   fun r hr => let h := (C16_terminated C16_current_source J mv init hinit ops hna hops).2.2 r hr; ⟨h.1, h.2.1, h.2.2.1, h.2.2.2.1⟩⟩
 
 /-! ### formatted writes that reach the String through `print_to_with` / `show_to` (src/Show.c) -/
 
@@ -444,6 +482,170 @@ theorem C16_rejected_format_old_refuted :
     ¬ (formatToROld .modelled (fun _ => 165) s 2 none).st.WF ∧
     (formatToROld .modelled (fun _ => 165) s 2 none).st.buf = [97, 98] ∧
     (formatToR .modelled (fun _ => 165) s 2 none).st = s := by decide
+
+/-! ### `hash`: String_Hash over the C10 model of `hash_data` -/
+
+/-- **`hash` of a String is MurmurHash64A (seed 0xCe110) over exactly the characters of the abstract string.**
+    `String_Hash` is `hash_data(s->val, strlen(s->val))` (shape checked by `C16_source_shape_as_modelled`): the bytes handed
+    over are those of the abstract string, terminator and stale bytes excluded (this engine), and `hash_data` is the
+    interpreter `Cello.Hash.hashData` over the constants and step lists the translator extracts from src/Hash.c, proved equal
+    to the published algorithm in engine `hash` (C10, `hashData_eq_murmur`).  After any history as in `C16_refines_bytes`;
+    in particular Strings with equal text hash equally whatever lies behind their terminators. -/
+theorem C16_hash_is_murmur {P : Params} (hP : P.Lawful) (J : Nat → Byte) (mv : Nat → Bool) (init : Option (List Byte))
+    (hinit : ∀ x, init = some x → NulFree x) (ops : List AOp) (hna : ∀ op ∈ ops, op.NoAlias)
+    (hops : ∀ op ∈ ops, op.plain.NulFree) :
+    let s := (runA P J mv 0 (new P J init).st ops).1
+    hash Cello.Hash.hashData s = Cello.Hash.murmur64A 0xCe110 (Spec.run (init.getD []) (ops.map AOp.plain)) ∧
+    ∀ t : Str, t.WF → t.abs = s.abs → hash Cello.Hash.hashData t = hash Cello.Hash.hashData s := by
+  intro s
+  have h := C16_refines_bytes hP J mv init hinit ops hna hops
+  refine ⟨by rw [h.2.2.2.2.1 Cello.Hash.hashData]; exact Cello.Hash.hashData_eq_murmur _, ?_⟩
+  intro t ht hts
+  rw [hash_eq _ ht, hts, h.2.2.2.2.1 Cello.Hash.hashData, h.1]
+
+/-- "Hello": the hash is Murmur of the five characters, and two allocations with the same text but different bytes behind the
+    terminator hash alike -/
+example : hash Cello.Hash.hashData ⟨[72, 101, 108, 108, 111, 0]⟩ = Cello.Hash.murmur64A 0xCe110 [72, 101, 108, 108, 111] ∧
+    hash Cello.Hash.hashData ⟨[72, 101, 108, 108, 111, 0, 7, 7]⟩ = hash Cello.Hash.hashData ⟨[72, 101, 108, 108, 111, 0]⟩ :=
+  ⟨Cello.Hash.hashData_eq_murmur _, rfl⟩
+
+/-! ### operands that point into the target's own allocation (known finding KF-C16-alias-operand)
+
+  `assign(s, s)`, `concat(s, s)`, `append(s, s)`, `concat(s, $S(c_str(s) + k))`, `assign(s, $S(c_str(s) + k))`,
+  `print_to(s, pos, "%s", s)`: nothing in the property exempts them ("equal in value to the target, substrings at the start,
+  middle and end" — the target's own buffer is where such operands most naturally come from).  src/String.c computes the
+  operand's pointer, reallocates, and then reads through the pointer: the model (`assignA`, `concatA`, `formatA`; `mv` = the
+  allocator moved the block) returns `ub` there. -/
+
+/-- **the full statement**, for an implementation `impl` of one step: for EVERY operand form (by value, the target itself, a
+    view at an offset inside the text), whatever the allocator does, the step is defined, the object stays a C string and
+    its text is the list function applied to the old text and the bytes the operand denoted when the call was made -/
+def C16_alias_statement (impl : Params → (Nat → Byte) → Bool → Str → AOp → Res) : Prop :=
+  ∀ (P : Params), P.Lawful → ∀ (J : Nat → Byte) (mv : Bool) (s : Str) (op : AOp), s.WF → op.InText s → op.NulFree s →
+    (impl P J mv s op).defined = true ∧ (impl P J mv s op).st.WF ∧
+      (impl P J mv s op).st.abs = Spec.step s.abs (op.toOp s)
+
+/-- **refuted by the code as it is**: `assign(s, s)` on "ab" with a moving allocator reads the freed block -/
+theorem C16_alias_refuted : ¬ C16_alias_statement stepA := by
+  intro h
+  have := (h .modelled Params.modelled_lawful (fun _ => 165) true ⟨[97, 98, 0]⟩ (.assign .self) (by decide) (by decide)
+    (by decide)).1
+  revert this; decide
+
+/-- **the witnesses of corpus/kf_c16_alias.ops in the model**, target "ab" (allocation `61 62 00`), per site and per
+    behaviour of the allocator: `assign(s, s)` — moved: use after free, in place: `strcpy(p, p)`; `assign(s, $S(c_str(s)+1))`
+    in place: the block was cut to 2 bytes, the view's terminator is gone; `concat(s, s)` / `append(s, s)` — `strcat(p, p)`
+    either way; `concat(s, $S(c_str(s)))` — moved: use after free, in place: overlap; `print_to(s, 1, "%s", s)` — moved: use
+    after free, in place: the text written overlaps its own source.  None is defined, so none has the by-value result
+    ("ab", "b", "abab", "abab", "aab"). -/
+theorem C16_alias_operand_refuted :
+    let P := Params.modelled
+    let J : Nat → Byte := fun _ => 165
+    let s : Str := ⟨[97, 98, 0]⟩
+    (assignA P J true s .self).out = .ub .useAfterFree ∧ (assignA P J false s .self).out = .ub .overlap ∧
+    (assignA P J true s (.view 1)).out = .ub .useAfterFree ∧ (assignA P J false s (.view 1)).out = .ub .outOfBounds ∧
+    (concatA P J true s .self).out = .ub .overlap ∧ (concatA P J false s .self).out = .ub .overlap ∧
+    (concatA P J true s (.view 0)).out = .ub .useAfterFree ∧ (concatA P J false s (.view 0)).out = .ub .overlap ∧
+    (formatA P J true s 1 id .self).out = .ub .useAfterFree ∧ (formatA P J false s 1 id .self).out = .ub .overlap ∧
+    (∀ mv, (stepA P J mv s (.append .self)).defined = false) ∧
+    s.WF ∧ (AOp.assign (.view 1)).InText s ∧ (AOp.assign (.view 1)).NulFree s ∧ ¬ (AOp.assign (.view 1)).NoAlias := by
+  decide
+
+/-- **the whole excluded region is undefined, not just the witnesses**: for every lawful size arithmetic, every well-formed
+    target, every offset inside its text, every position inside its text and BOTH behaviours of the allocator, an aliased
+    `assign`, `concat`, `append` and `%s` write is undefined — a moving `realloc` makes the copy read freed memory (also for any
+    other `render`), a `realloc` in place leaves `strcpy` / `strcat` / `vsprintf` with overlapping objects or a view whose
+    terminator was cut off.  (So the hypothesis `AOp.NoAlias` of the history theorems excludes nothing that the code defines.) -/
+theorem C16_alias_always_undefined {P : Params} (hP : P.Lawful) (J : Nat → Byte) (mv : Bool) (s : Str) (hs : s.WF)
+    (src : Src) (halias : ¬ src.Disjoint) (hoff : src.off ≤ s.abs.length) (pos : Nat) (hpos : pos ≤ s.abs.length) :
+    (stepA P J mv s (.assign src)).out.isUB = true ∧ (stepA P J mv s (.concat src)).out.isUB = true ∧
+    (stepA P J mv s (.append src)).out.isUB = true ∧ (stepA P J mv s (.formatS pos src)).out.isUB = true ∧
+    (mv = true → ∀ render, (formatA P J mv s pos render src).out.isUB = true) := by
+  have hin : inBlock s.buf src.off = true := by
+    obtain ⟨c, r, rfl, hc, habs⟩ := hs.view
+    rw [habs] at hoff; exact inBlock_view c r hc _ hoff
+  cases src with
+  | val x => exact absurd trivial halias
+  | self =>
+    refine ⟨assignAt_ub hP J mv s hs 0 hoff, ?_, ?_, formatAt_id_ub hP J mv s hs pos 0 hpos hoff, ?_⟩
+    · show (concatA P J mv s .self).out.isUB = true; rw [concatA_self_ub hP J mv s hs]; rfl
+    · show (concatA P J mv s .self).out.isUB = true; rw [concatA_self_ub hP J mv s hs]; rfl
+    · intro hm render; subst hm
+      show (formatAt P J true s pos render 0).out.isUB = true
+      rw [(moved_is_useAfterFree P J s 0 hin pos render).2.2]; rfl
+  | view off =>
+    refine ⟨assignAt_ub hP J mv s hs off hoff, concatA_view_ub hP J mv s hs off hoff, concatA_view_ub hP J mv s hs off hoff,
+      formatAt_id_ub hP J mv s hs pos off hpos hoff, ?_⟩
+    intro hm render; subst hm
+    show (formatAt P J true s pos render off).out.isUB = true
+    rw [(moved_is_useAfterFree P J s off hin pos render).2.2]; rfl
+
+/-- **what does hold for aliased operands** (`_partial`: the part of `C16_alias_statement stepA` that is true).
+    `rem(s, obj)` with `obj` the target or a view into it makes no `realloc` and reads the operand completely before its one
+    `memmove`: it is `rem` of the bytes the operand denotes — defined, well-formed, first occurrence removed (`rem(s, s)`
+    empties `s`; a view of a suffix that also occurs earlier removes the EARLIER occurrence), ValueError never (a suffix of
+    the text occurs in it).  The observers `cmp / eq / mem` only read.  And every step whose operand is given by value is
+    the by-value step, whatever the allocator does. -/
+theorem C16_alias_partial {P : Params} (hP : P.Lawful) (J : Nat → Byte) (mv : Bool) (s : Str) (hs : s.WF) :
+    (∀ src : Src, src.off ≤ s.abs.length → NulFree (src.read s) →
+      stepA P J mv s (.rem src) = rem P s (src.read s) ∧
+      (stepA P J mv s (.rem src)).defined = true ∧ (stepA P J mv s (.rem src)).st.WF ∧
+      (stepA P J mv s (.rem src)).st.abs = (removeFirst (src.read s) s.abs).getD s.abs) ∧
+    (stepA P J mv s (.rem .self)).st.abs = [] ∧
+    (∀ op : AOp, op.NoAlias → stepA P J mv s op = step P J s op.plain) := by
+  have key : ∀ src : Src, src.off ≤ s.abs.length → stepA P J mv s (.rem src) = rem P s (src.read s) := by
+    intro src hoff
+    cases src with
+    | val x => rfl
+    | self => rfl
+    | view off =>
+      obtain ⟨c, r, rfl, hc, habs⟩ := hs.view
+      rw [habs] at hoff
+      have := inBlock_view c r hc off hoff
+      simp [stepA, remA, this, Src.read]
+  refine ⟨?_, ?_, fun op h => stepA_noAlias P J mv s h⟩
+  · intro src hoff hnf
+    have h := step_ok hP J s (.rem (src.read s)) hs hnf
+    rw [key src hoff]
+    exact ⟨rfl, by simp [Res.defined, show (rem P s (src.read s)).safe = true from h.safe,
+      show (rem P s (src.read s)).out.isUB = false from step_not_ub P J s (.rem (src.read s))], h.wf, h.abs⟩
+  · have h := step_ok hP J s (.rem (Src.read s .self)) hs (abs_nulFree s)
+    rw [key .self (Nat.zero_le _)]
+    have habs : (rem P s (Src.read s .self)).st.abs = _ := h.abs
+    rw [habs]
+    show (removeFirst s.abs s.abs).getD s.abs = []
+    have : removeFirst s.abs s.abs = some [] := by
+      rw [removeFirst_some_iff]
+      exact ⟨[], [], by simp, rfl, fun _ _ _ => Nat.zero_le _⟩
+    rw [this]; rfl
+
+/-- **the proposed repair satisfies the full statement**: with `String_Assign` moving an operand that lies inside the target
+    to the front before it shrinks the block, `String_Concat` taking the lengths first, re-deriving an inside operand from the
+    NEW block by its offset and copying with `memmove` + an explicit terminator, and `String_Format_To` formatting into a
+    temporary before the `realloc` (`assignFix`, `concatFix`, `formatFix` in Cello/Str.lean mirror the diff given to the
+    coordinator), every operand form gives the by-value result, for every allocator behaviour. -/
+theorem C16_alias_repaired : C16_alias_statement stepFix :=
+  fun _ hP J mv s op hs hin hnf => stepFix_ok hP J mv s op hs hin hnf
+
+/-- the hypothesis `AOp.NoAlias` is met by a reachable history that exercises every operation, from `new(String, $S("hello"))`;
+    an aliased one does not meet it (and the decision procedure says so) -/
+example :
+    let ops : List AOp := [.concat (.val [32, 119]), .resize 9, .rem (.val [108]), .format 3 [88, 89], .append (.val [33]),
+      .formatS 2 (.val [113]), .resize 2, .rem (.val [122]), .clear, .assign (.val [97, 97, 97]), .rem (.val [97, 97])]
+    (∀ op ∈ ops, op.NoAlias) ∧ (∀ op ∈ ops, op.plain.NulFree) ∧
+    (runA .modelled (fun _ => 165) (fun i => i % 2 == 0) 0 (new .modelled (fun _ => 165) (some [104, 101, 108, 108, 111])).st ops).1
+      = ⟨[97, 0, 97, 0]⟩ ∧
+    Spec.run [104, 101, 108, 108, 111] (ops.map AOp.plain) = [97] ∧
+    ¬ (AOp.concat .self).NoAlias ∧ ¬ (AOp.formatS 0 (.view 2)).NoAlias := by decide
+
+/-- the hypotheses of `C16_alias_statement` / `C16_alias_repaired` are met by an aliased call on a String with stale bytes
+    behind its terminator, and the repaired step gives the by-value result there: `concat(s, $S(c_str(s) + 1))` on "hi" -/
+example :
+    let s : Str := ⟨[104, 105, 0, 0, 165]⟩
+    s.WF ∧ (AOp.concat (.view 1)).InText s ∧ (AOp.concat (.view 1)).NulFree s ∧
+    (stepFix .modelled (fun _ => 165) true s (.concat (.view 1))).st = ⟨[104, 105, 105, 0]⟩ ∧
+    (stepFix .modelled (fun _ => 165) true s (.assign (.view 1))).st = ⟨[105, 0]⟩ ∧
+    (stepFix .modelled (fun _ => 165) true s (.formatS 2 .self)).st = ⟨[104, 105, 104, 105, 0]⟩ := by decide
 
 /-! ### non-vacuity: concrete non-trivial states meet the hypotheses -/
 
